@@ -1066,6 +1066,8 @@ package server
 //@ axiom pairKey_injective: forall a int, b int :: pairFst(pairKey(a, b)) == a && pairSnd(pairKey(a, b)) == b
 //@ unit (*Store).GetRelatedAtTime
 //@   prop C03 C06 C07
+//@   ghost appendedFinalG bool = false
+//@   ghost pendingG bool = false
 //@   ghost curPassG bool = false
 //@   ghost curPG int = 0
 //@   ghost curRG int = 0
@@ -1076,15 +1078,18 @@ package server
 //@   ghost earlierG intset = emptyset()
 //@   ghost prevPredG int = 0
 //@   requires s != nil
+//@   requires limit >= 0
 //@   requires [index-of-the-direction] from != nil ==> encBE16(from.RelationIndexFromKey, 0) == (from.Inverse ? 2 : 3)
 //@   requires-inv [existing-objects] foreign(s.deletedDatasets)
 //@   requires-inv [start-key-is-a-whole-buffer] from != nil ==> offOf(from.RelationIndexFromKey) == 0 && foreign(from.RelationIndexFromKey)
 //@   ensures [C06:continuation-pins-the-instant-and-the-query] ret2 == nil && ret1 != nil ==> ret1.At == from.At && ret1.Predicate == from.Predicate && ret1.Inverse == from.Inverse && ret1.Datasets == from.Datasets
+//@   ensures [C03:incoming-page-that-filled-up-before-the-last-referrer-was-flushed-keeps-a-continuation] ret2 == nil && pendingG ==> ret1 != nil
 //@   ensures [C03:outgoing-page-respects-the-limit] ret2 == nil && !from.Inverse && limit > 0 ==> len(ret0) <= limit
 //@   safe slice
 //@   at $1 call Seek#2 before
 //@     assert [C03:every-page-rescans-from-the-newest-key-of-the-start-entity] len(key) == 11 && key[10] == 255 && arrOf(key) == arrOf(reverseFrom) && encBE16(key, 0) == encBE16(from.RelationIndexFromKey, 0) && encBE64(key, 2) == encBE64(from.RelationIndexFromKey, 2)
 //@   at $1 call ValidForPrefix#2 before
+//@     ghost pendingG := currentRID != 0 && limit != 0 && len(results) >= limit && !appendedFinalG
 //@     assert [C06,C03:incoming-scan-stops-only-when-the-index-is-exhausted-or-the-page-is-full] (0 <= $itPos[outgoingIterator] && $itPos[outgoingIterator] < N($itTxn[outgoingIterator]) && hasPfx(K($itTxn[outgoingIterator], $itPos[outgoingIterator]), $itPlen[outgoingIterator], $itPcl[outgoingIterator], $itPds[outgoingIterator], $itP64[outgoingIterator]) && kcl(K($itTxn[outgoingIterator], $itPos[outgoingIterator])) == encBE16(searchBuffer, 0) && k64at2(K($itTxn[outgoingIterator], $itPos[outgoingIterator])) == encBE64(searchBuffer, 2)) ==> limit != 0 && len(results) >= limit
 //@   at $1 call ValidForPrefix#4 before
 //@     assert [C06,C03:outgoing-scan-stops-only-when-the-index-is-exhausted-or-the-page-is-full] (0 <= $itPos[outgoingIterator] && $itPos[outgoingIterator] < N($itTxn[outgoingIterator]) && hasPfx(K($itTxn[outgoingIterator], $itPos[outgoingIterator]), $itPlen[outgoingIterator], $itPcl[outgoingIterator], $itPds[outgoingIterator], $itP64[outgoingIterator]) && kcl(K($itTxn[outgoingIterator], $itPos[outgoingIterator])) == encBE16(searchBuffer, 0) && k64at2(K($itTxn[outgoingIterator], $itPos[outgoingIterator])) == encBE64(searchBuffer, 2)) ==> limit != 0 && len(results) >= limit
@@ -1098,10 +1103,12 @@ package server
 //@   at $1 call append#2 before
 //@     assert [C03,C06,C07:incoming-result-passed-the-dataset-time-and-predicate-filters] !(has(s.deletedDatasets, dsResult.DatasetID) && s.deletedDatasets[dsResult.DatasetID]) && (len(from.Datasets) == 0 || (exists k int :: 0 <= k && k < len(from.Datasets) && from.Datasets[k] == dsResult.DatasetID)) && dsResult.Time <= from.At && (from.Predicate == 0 || from.Predicate == dsResult.PredicateID)
 //@   at $1 call append#3 before
+//@     ghost appendedFinalG := true
 //@     assert [C03:incoming-results-flushed-only-when-the-newest-scanned-key-of-the-related-entity-is-live] delG[prevPredG] != 1
 //@     assert [C03:incoming-result-comes-from-a-live-reference-key] delG[prevResult.PredicateID] != 1
 //@     assert [C03,C06,C07:incoming-result-passed-the-dataset-time-and-predicate-filters] !(has(s.deletedDatasets, prevResult.DatasetID) && s.deletedDatasets[prevResult.DatasetID]) && (len(from.Datasets) == 0 || (exists k int :: 0 <= k && k < len(from.Datasets) && from.Datasets[k] == prevResult.DatasetID)) && prevResult.Time <= from.At && (from.Predicate == 0 || from.Predicate == prevResult.PredicateID)
 //@   at $1 call append#4 before
+//@     ghost appendedFinalG := true
 //@     assert [C03,C06,C07:incoming-result-passed-the-dataset-time-and-predicate-filters] !(has(s.deletedDatasets, dsResult.DatasetID) && s.deletedDatasets[dsResult.DatasetID]) && (len(from.Datasets) == 0 || (exists k int :: 0 <= k && k < len(from.Datasets) && from.Datasets[k] == dsResult.DatasetID)) && dsResult.Time <= from.At && (from.Predicate == 0 || from.Predicate == dsResult.PredicateID)
 //@   at $1 call Item#2
 //@     ghost curPassG := false
@@ -1144,6 +1151,8 @@ package server
 //@     invariant forall p uint64 :: has(prevResults, p) ==> prevResults[p].Time <= from.At
 //@     invariant forall p uint64 :: has(prevResults, p) ==> (from.Predicate == 0 || from.Predicate == prevResults[p].PredicateID)
 //@     invariant forall d uint32 :: has(dsSpillOver, d) ==> !(has(s.deletedDatasets, dsSpillOver[d].DatasetID) && s.deletedDatasets[dsSpillOver[d].DatasetID]) && (len(from.Datasets) == 0 || (exists k int :: 0 <= k && k < len(from.Datasets) && from.Datasets[k] == dsSpillOver[d].DatasetID)) && dsSpillOver[d].Time <= from.At && (from.Predicate == 0 || from.Predicate == dsSpillOver[d].PredicateID)
+//@   loop $1:5
+//@     invariant forall p uint64 :: visited(p) ==> appendedFinalG
 //@   loop $1:6
 //@     invariant encBE16(searchBuffer, 0) == 3 && len(searchBuffer) == 10 && $itPlen[outgoingIterator] == 10
 //@     invariant limit == 0 || len(results) <= limit || limit < 0
